@@ -197,6 +197,22 @@ CLAIMED = {
    note="Trusted: Coq kernel+vm_compute; javac/javap/g++ as judges; the reference mapping in props/c02.py; Jinja runtime. Objective-C and "
         "C++/CLI declaration lists are covered through their type/name strings only (no compiler for them here). One defect repaired (f7bd709).",
    technique="Coq proofs of compositionality/uniqueness by nested induction over type references + render lemmas + vm_compute correspondences + javap / static_assert judges", design="7/C02"),
+ 'C13': dict(
+   text="Coq model of the YAML target's export and of @extern's import on the external-type tree (Marshal/Yaml.v). Theorems: import(export "
+        "e) = e for every well-formed type record (name, namespace, kind, parameters, deprecation, comment, every per-generator field); "
+        "finite inventories REGENERATED from /repo on each run: every attribute the generators' Python code reads through a type reference "
+        "(AST scan of generator/**/*.py for X.type_def.<gen>.<attr>) is an exported field; every such read in the 69 translated templates "
+        "is exported; the reads through a variable bound to a referenced definition are exported except exactly six (error codes, "
+        "jni/objcpp namespace+name, objc domain name of an error domain after `throws`) - the refuted part, recorded as C13-K1: a new "
+        "unexported read breaks the theorem. Ties: K-yaml compares the document exported for every declaration (two naming "
+        "configurations) with the model's export of the fields read off the live marshalling objects and re-imports it; the exported "
+        "documents are validated against API().external_type_model.model_json_schema() (the published schema); M-extern generates every "
+        "dependant feature (14: enum/flags/record fields, containers, function types, interface parameters/results, async, throws, "
+        "error parameters, inline functions, deprecated types, records extended in C++) with the library declared locally and pulled in "
+        "with @extern, in both export modes, and compares every dependant file byte for byte.",
+   note="Trusted: Coq kernel+vm_compute; PyYAML/pydantic as identities on the tree; jsonschema; the translators. Known findings C13-K1 "
+        "(error domains through @extern), C13-K2 (records extended in a target).",
+   technique="Coq round-trip proof + finite attribute inventories over the regenerated templates/AST scan + vm_compute correspondence + metamorphic local-vs-extern comparison", design="7/C13"),
 }
 PENDING_REASON = "check not built yet in this session (work in progress; see DESIGN.md section 10 build order)"
 HOOK_COMMITS = []
